@@ -42,6 +42,7 @@ type CallRec struct {
 type actor struct {
 	e     *Env
 	t     *simrt.Task
+	depth int // nesting of calls (the body of a session transaction runs inside the transaction's call)
 	idx   int
 	calls []*CallRec
 
@@ -128,6 +129,14 @@ func (a *actor) call(op *Op, fn func(c *CallRec)) *CallRec {
 	e.opSeq++
 	c.Inv, c.InvCom, c.InvAt = e.opSeq, len(e.commits), e.sim.Elapsed()
 	e.noteWall()
+	if a.depth == 0 {
+		if e.callWall == nil {
+			e.callWall, e.callAt = map[*simrt.Task]time.Time{}, map[*simrt.Task]time.Duration{}
+		}
+		e.callWall[a.t], e.callAt[a.t] = time.Now().Add(e.sim.WallOffset()), c.InvAt
+	}
+	a.depth++
+	defer func() { a.depth-- }()
 	func() {
 		defer func() {
 			if r := recover(); r != nil {
